@@ -6,21 +6,22 @@
 . "$(dirname "$0")/../bin/env.sh"
 p="$1"; d="$2"; tier="${3:-quick}"
 [ -f "$d/patch.diff" ] || { echo "no patch in $d"; exit 2; }
-id="$(basename "$(dirname "$d")")-$(basename "$d")"
+demo="$d/demo_test.go"; [ -f "$demo" ] || demo="$d/demo_test.go.txt"
+id="$(basename "$d")"; case "$id" in [0-9]*) id="$(basename "$(dirname "$d")")-$id";; esac
 wt="/tmp/seedwt-$id"
 git -C /repo worktree remove --force "$wt" >/dev/null 2>&1
 git -C /repo worktree add -q --detach "$wt" HEAD || exit 2
 cleanup() { git -C /repo worktree remove --force "$wt" >/dev/null 2>&1; rm -rf "$VERIF_DIR/.build/seed-$id"; }
 trap cleanup EXIT INT TERM
 race=""; [ "$p" = C17 ] && race="-race"
-pkg=$(grep -m1 '^package ' "$d/demo_test.go" | awk '{print $2}')
-tests=$(grep -o '^func Test[A-Za-z0-9_]*' "$d/demo_test.go" | sed 's/func //' | paste -sd'|')
+pkg=$(grep -m1 '^package ' "$demo" | awk '{print $2}')
+tests=$(grep -o '^func Test[A-Za-z0-9_]*' "$demo" | sed 's/func //' | paste -sd'|')
 rundemo() {
   if [ "$pkg" = concise_encoding ] || [ "$pkg" = concise_encoding_test ]; then
-    cp "$d/demo_test.go" "$wt/zz_seed_demo_test.go"
+    cp "$demo" "$wt/zz_seed_demo_test.go"
     (cd "$wt" && timeout 600 go test $race -vet=off -count=1 -run "^($tests)\$" . >/tmp/seed_demo_$id.log 2>&1; echo $?); rm -f "$wt/zz_seed_demo_test.go"
   else
-    mkdir -p "$wt/zz_seed_demo" && cp "$d/demo_test.go" "$wt/zz_seed_demo/demo_test.go"
+    mkdir -p "$wt/zz_seed_demo" && cp "$demo" "$wt/zz_seed_demo/demo_test.go"
     (cd "$wt" && timeout 600 go test $race -vet=off -count=1 ./zz_seed_demo/ >/tmp/seed_demo_$id.log 2>&1; echo $?); rm -rf "$wt/zz_seed_demo"
   fi
 }
